@@ -452,8 +452,8 @@ theorem defaultAutoTag_documented : Model.C10.defaultAutoTag.enabled = false ∧
 /-- `netsample.DiscardedShootSample()`: a NEW sample (not one of the pool) tagged `DiscardedShootTag` whose net code is set to
 `DiscardedShootCodeError` by `SetUserNet` (= `set(keyErrno, …)`): `Model.C10.discardedSample` -/
 theorem discardedShootSample_eq :
-    Gen.GrpcStatus.srcDiscardedShootSample =
-      ["v1 := &Sample{ timeStamp: time.Now(), tags: DiscardedShootTag, }", "v1.SetUserNet(DiscardedShootCodeError)", "return v1"] ∧
+    Gen.GrpcStatus.discardedShootSampleFacts =
+      ["call:SetUserNet(DiscardedShootCodeError)", "lit:tags=DiscardedShootTag", "lit:timeStamp=time.Now()", "pool:false", "returns:it"] ∧
     Gen.GrpcStatus.srcSetUserNet = ["v1.set(keyErrno, v2)"] ∧
     Gen.GrpcStatus.discardedTag = Model.C10.discardedTag ∧ Gen.GrpcStatus.discardedNet = Model.C10.discardedNet ∧
     Model.C10.discardedTag = Spec.C10.discardedTag ∧ Model.C10.discardedNet = Spec.C10.discardedNet := by decide
